@@ -190,8 +190,8 @@ def cipher_cases(ops, tier, rng):
         for op in ops: yield '%s x%s x%s' % (op, kh, ch if op.endswith('dec') and not op.endswith('encdec') else bh), 'kat'
     # every byte length 0..32
     for n in range(0, 33):
-        for key, kt in keys_of_len(n, rng, 1 if q else 4):
-            for blk, btg in blocks(rng, 1 if q else 3)[(2 if q and kt != 'rand' else 0):]:
+        for key, kt in keys_of_len(n, rng, 2 if q else 12):
+            for blk, btg in blocks(rng, 1 if q else 5)[(2 if q and kt != 'rand' else 0):]:
                 for op in ops: yield '%s %s %s' % (op, hx(key), hx(blk)), 'len%d' % n if kt == 'rand' else 'key-' + kt
     # every single-bit block / single-bit 256-bit key
     key = bytes(rng.getrandbits(8) for _ in range(32))
@@ -226,17 +226,17 @@ def component_cases(ops_box, ops_lin, tier, rng):
             for op in ops_box: yield '%s %d %s' % (op, i, bt(128, col_word([v] * 32))), 'box-value'
         for k in range(2 if q else 8):
             for op in ops_box: yield '%s %d %s' % (op, i, bt(128, col_word([(v * (2 * k + 1) + i + k) % 16 for v in range(32)]))), 'box-mixed'
-        for x, tg in component_states(rng, 4 if q else 40, units=not q or i in (0, 7)):
+        for x, tg in component_states(rng, 6 if q else 200, units=not q or i in (0, 7)):
             for op in ops_box: yield '%s %d %s' % (op, i, bt(128, x)), 'box-' + tg
     for i in (8, 9, 16):
         for op in ops_box: yield '%s %d %s' % (op, i, bt(128, rng.getrandbits(128))), 'error-box'
     for n in (0, 4, 127, 129, 256):
         for op in ops_box: yield '%s %d %s' % (op, 3, bt(n, rng.getrandbits(n) if n else 0)), 'error-size'
         for op in ops_lin: yield '%s %s' % (op, bt(n, rng.getrandbits(n) if n else 0)), 'error-size'
-    for x, tg in component_states(rng, 40 if q else 1000):
+    for x, tg in component_states(rng, 60 if q else 4000):
         for op in ops_lin: yield '%s %s' % (op, bt(128, x)), op.split('.')[-1] + '-' + tg
     # two-bit states for the linear maps (pairs of unit vectors)
-    for _ in range(30 if q else 600):
+    for _ in range(40 if q else 3000):
         x = (1 << rng.randrange(128)) | (1 << rng.randrange(128))
         for op in ops_lin: yield '%s %s' % (op, bt(128, x)), 'two-bit'
 
